@@ -112,7 +112,7 @@ def run_record(scn, votes=True):
         'B': c['B'], 'fnum': c['fnum'], 'fden': c['fden'],
         'flk': [[int(k), v[0], v[1]] for k, v in sorted((c.get('flookup') or {}).items())],
         'K': c['K'], 'chunk': c['chunk'],
-        'P': c['P'], 'minm': c['minm'], 'votes': votes}
+        'P': c['P'], 'minm': c['minm'], 'votes': votes, 'draws': True}
 
 
 def _kround(p, B):
@@ -264,17 +264,26 @@ def numeric_checks(scn, trace, res):
             sums = {}
             cnt = {}
             det = True
+            best_vals = []
             for d in e['draws']:
                 cs = sorted(((pearson([q[i] for i in d], [M[lf][i] for i in d]), lf) for lf in M),
                             reverse=True)
+                best_vals.append(cs[0][0])
                 # near-tie rule: every leaf within 1e-9 of the best must belong to the same child
                 if len({typ[lf] for c, lf in cs if cs[0][0] - c < 1e-9}) > 1:
                     det = False
-                    break
+                    continue
                 t = typ[cs[0][1]]
                 sums[t] = sums.get(t, 0.0) + cs[0][0]
                 cnt[t] = cnt.get(t, 0) + 1
             lv = by_id[cid]['levels'][cl]
+            # whoever wins an iteration wins it with the largest correlation of that iteration: the reported
+            # average lies between the smallest and the largest of these maxima even when ties leave the
+            # winner open (a cell that is constant on the drawn genes: all correlations 0, average 0)
+            if best_vals and len(best_vals) == len(e['draws']) and lv['c'] is not None and \
+                    not (min(best_vals) - 1e-9 <= lv['c'] <= max(best_vals) + 1e-9):
+                out.append((230, f'cell {cid} level {cl}: avg_correlation {lv["c"]} is outside the range '
+                                 f'[{min(best_vals)}, {max(best_vals)}] of the best correlations of its iterations'))
             if not det:
                 undetermined += 1
                 continue
